@@ -107,7 +107,9 @@ def _problem(d, rng, extra, F, D, cond_max=4):
             1e-3 * gen.hpd(rng, D, 10, 1.0, (*extra, F))
     else:
         xx = gen.hpd(rng, D, d.log10(0, 3), 1.0, (*extra, F))
-    return xx, nn, cond
+    # same values behind another memory layout (transposed / Fortran / strided
+    # views, leading axes stored in the other order)
+    return gen.vary(d, xx, 131), gen.vary(d, nn, 132), cond
 
 
 def _run_name(d, ctx, core, ban):
